@@ -241,6 +241,7 @@ class Printer:
     def __init__(self, abstract_nonlinear=False):
         self.abstract_nonlinear = abstract_nonlinear
         self.abstracted = 0
+        self.nl = []
         self.memo = {}
         self.out = []
         self.vars = {}
@@ -297,6 +298,16 @@ class Printer:
             if k[0] == '*' and k[1] == k[2]:
                 self.out.append('(assert (>= %s 0.0))' % nm)     # a square is non-negative
             self.abstracted += 1
+            # functional consistency of the abstracted operation (Ackermann): equal operands => equal result
+            a1, a2 = self.p(k[1], s), self.p(k[2], s)
+            if len(self.nl) < 80:
+                for (op, b1, b2, other) in self.nl:
+                    if op != k[0]:
+                        continue
+                    self.out.append('(assert (=> (and (= %s %s) (= %s %s)) (= %s %s)))' % (a1, b1, a2, b2, nm, other))
+                    if op == '*':
+                        self.out.append('(assert (=> (and (= %s %s) (= %s %s)) (= %s %s)))' % (a1, b2, a2, b1, nm, other))
+            self.nl.append((k[0], a1, a2, nm))
             self.memo[i] = nm
             return nm
         elif k[0] in ('+', '-', '*', '/'):
